@@ -2,6 +2,7 @@ SPECIFICATION Spec
 CONSTANTS
   Dedupe = FALSE
   N = 4
+  Full = TRUE
   NSort = 3
   SortAllNames = TRUE
 INVARIANT DoneRightWithoutDiamond
